@@ -37,8 +37,6 @@ VARIABLES l,        \* next line
 
 tvars == <<vars, l, cid, cl, obs, viol, ndiv, divs, dflag, ncases, kinds, okinds>>
 
-KindNames == {"change", "direct", "held", "fired", "cascade2", "discarded", "subsumed", "demoted", "outOfScope", "echo", "conflict"}
-
 ObsOf(ln) ==
     [lv |-> [p \in Pairs |-> ln.lv[PairIdx[p]]],
      pp |-> {[sk |-> ln.pp[i].sk, o |-> ln.pp[i].o, k |-> ln.pp[i].k, t |-> ln.pp[i].t] : i \in DOMAIN ln.pp}]
